@@ -14,7 +14,9 @@ EXTENDS Group
 CONSTANTS MaxP, MaxQ, MaxK,   \* box: p in 0..MaxP, q in 0..MaxQ, k in 0..MaxK
           Margin,             \* generators and elements range over -Margin .. p+Margin
           Variants,           \* set of variants [fam, F, G, E, le, canon, n]
-          NaiveMaxP,          \* blocks with p <= NaiveMaxP are also computed by filtering the whole block
+          NaiveMaxP,          \* blocks with p <= NaiveMaxP of the variants in NaiveVariants are also computed by filtering the whole block
+          NaiveVariants,
+          NbrMaxP, NbrVariants, \* well-formed sets with p <= NbrMaxP of these variants get their neighbourhoods explored
           Mode,               \* "acc": blocks only;  "nbr": + neighbourhoods;  "needs": oracle strings only;  "elem": member sets
           CheckArith,         \* evaluate the arithmetic agreement theorem at start-up (once per run is enough)
           SortedBases         \* TRUE: of the well-formed sets that differ only in the order of their generators, one is picked
@@ -84,7 +86,7 @@ Init == /\ stage = "block" /\ v \in Variants /\ ps \in {<<p>> : p \in 0..MaxP} /
 \* WFv of "com" (and of "pqgh" without the verifiable generator) is symmetric in the generators
 Increasing(s) == \A i \in 1..(Len(s) - 1) : s[i] < s[i + 1]
 Representative(w, t) == (SortedBases /\ (w.fam = "com" \/ (w.fam = "pqgh" /\ ~w.canon))) => Increasing(GensOf(w, t))
-PickValid == /\ stage = "block" /\ Mode = "nbr"
+PickValid == /\ stage = "block" /\ Mode = "nbr" /\ ps[1] <= NbrMaxP /\ v \in NbrVariants
              /\ ps' \in {t \in AccBlock(v, ps[1]) : Representative(v, t)}
              /\ stage' = "valid" /\ UNCHANGED <<v, fld>>
 Corrupt == /\ stage = "valid"
@@ -97,7 +99,12 @@ Spec == Init /\ [][Next]_vars
 ---------------------------------------------------------------------------
 (* theorems evaluated in every state                                        *)
 \* the block-wise construction is the definition
-BlockIsDefinition == (stage = "block" /\ Mode \in {"acc", "nbr"} /\ ps[1] <= NaiveMaxP) => AccBlock(v, ps[1]) = NaiveBlock(v, ps[1])
+BlockIsDefinition == (stage = "block" /\ Mode \in {"acc", "nbr"} /\ ps[1] <= NaiveMaxP /\ v \in NaiveVariants) =>
+                        AccBlock(v, ps[1]) = NaiveBlock(v, ps[1])
+\* (for every block: what was built is well-formed and lies in the box)
+InBox(w, t) == /\ Len(t) = NFields(w) /\ t[2] \in 0..MaxQ
+               /\ \A f \in 3..Len(t) : IF f = 3 /\ w.fam \in {"dlog", "com"} THEN t[f] \in 0..MaxK ELSE t[f] \in GRange(t[1])
+BlockSound == (stage = "block" /\ Mode \in {"acc", "nbr"}) => \A t \in AccBlock(v, ps[1]) : t[1] = ps[1] /\ WFv(v, t) /\ InBox(v, t)
 \* acceptance means what it should
 Sound == (stage # "block" /\ WFv(v, ps)) => MathOK(v, ps)
 \* WFv is exactly the complement of the property's defect list
@@ -134,12 +141,12 @@ Emit ==
 ---------------------------------------------------------------------------
 (* agreement of the defining and the evaluated arithmetic                   *)
 ArithOK ==
-  /\ \A n \in 0..400 : IsPrime(n) = IsPrimeDef(n)
+  /\ \A n \in 0..300 : IsPrime(n) = IsPrimeDef(n)
   /\ \A n \in 1..400 : Bits(n) = (CHOOSE b \in 1..10 : 2^(b - 1) <= n /\ n < 2^b)
   /\ Bits(0) = 0
-  /\ \A m \in 1..24, a \in (0 - 3)..26, e \in 0..13 : PowM(a, e, m) = PowDef(a, e, m)
+  /\ \A m \in 1..14, a \in (0 - 3)..16, e \in 0..13 : PowM(a, e, m) = PowDef(a, e, m)
   /\ \A a \in 0..40, b \in 0..40 : Gcd(a, b) = GcdDef(a, b)
-  /\ \A n \in 46000..46340 : IsPrime(n) = IsPrimeDef(n)
+  /\ \A n \in {46301, 46307, 46327, 46337, 46339, 46340} : IsPrime(n) = IsPrimeDef(n)
   /\ B62(0) = "0" /\ B62(23) = "N" /\ B62(61) = "z" /\ B62(62) = "10" /\ B62(2063) = "XH"
 ASSUME CheckArith => ArithOK
 =============================================================================
